@@ -89,6 +89,8 @@ class Oracle:
             return ('e:StopStream', 'Done') if gen else ('v:N', 'Done')
         if kind == 'raise':
             return 'e:ValueError', 'Done'
+        if kind == 'raiseb':
+            return 'e:' + ex[3], 'Done'
         if kind == 'rstop':
             return ('e:RuntimeError' if gen else 'e:StopStream'), 'Done'
         if kind == 'yar':
@@ -318,7 +320,7 @@ class Check(common.Check):
 
     def rule(self):
         return ('1-4 routines (generator or plain function, with/without inval) whose bodies are scripts of 0-9 '
-                'actions over yield/raise/raise StopStream/YieldAndReset/AlwaysYield/nested next (catch, propagate, '
+                'actions over yield/raise (Exception and bare BaseException: KeyboardInterrupt, SystemExit, GeneratorExit, custom)/raise StopStream/YieldAndReset/AlwaysYield/nested next (catch, propagate, '
                 'embed)/play,pause,resume,stop,reset on any routine incl. itself/Condition wait,signal,unhang,test/'
                 'FlowVar get,set/log; 0-2 conditions, 0-1 flow variables; histories of 1-40 external ops '
                 '(next, tick, play/pause/resume/stop/reset, signal, unhang, test, FlowVar set); thorough adds all '
@@ -335,6 +337,8 @@ class Check(common.Check):
             w = rng.random()
             if gen and w < 0.30:
                 acts.append(['y', rng.choice(['n0', 'n1', 'n1', 'n2', 'n3', 'N', 'H', 'bT'])])
+            elif w < 0.315:
+                acts.append(['raiseb', rng.choice('KSGC')])
             elif w < 0.33:
                 acts.append(['raise'])
             elif w < 0.36:
